@@ -851,7 +851,7 @@ func isUnknownSpec(a predOutcome) predOutcome {
 
 //@ func unknownDateTime
 //@ props C05
-//@ ensures r0 == 0 && r1 != nil && errIs(r1, ErrInvalid) && !errIs(r1, ErrExecution)
+//@ ensures r0 == 0 && r1 != nil && errIs(r1, ErrInvalid) && !errIs(r1, ErrExecution) && !errIs(r1, ErrVerbose)
 
 //@ func (*Executor).castDate
 //@ props C17
